@@ -2095,7 +2095,7 @@ class ktensor:
 
         # Check that each multiplicand is the right size.
         for i in range(dims.size):
-            if vector[vidx[i]].squeeze().shape != (self.shape[dims[i]],):
+            if np.atleast_1d(vector[vidx[i]].squeeze()).shape != (self.shape[dims[i]],):
                 assert False, (
                     f"Multiplicand is wrong size. Vector[{i}] was "
                     f"{vector[vidx[i]].squeeze().shape}"
@@ -2109,7 +2109,7 @@ class ktensor:
         new_weights = self.weights.copy()
         for i, dim in enumerate(dims):
             new_weights = new_weights * (
-                self.factor_matrices[dim].T @ vector[vidx[i]].squeeze()
+                self.factor_matrices[dim].T @ np.atleast_1d(vector[vidx[i]].squeeze())
             )
 
         # Create final result
